@@ -43,7 +43,7 @@ PROBES = ["crash_halted", "crash_off", "crash_in_handler", "crash_pending_masked
 
 ALLOW = {"timers": True, "keys": True, "onk": True, "imr_writes": True, "isr_writes": True, "wait": True,
          "halt": True, "off": True, "ir": True, "calls": True, "far_calls": True, "nested": True,
-         "lcd": True, "kil_reads": True, "rom_writes": True, "h_lowpower": True}
+         "lcd": True, "kil_reads": True, "rom_writes": True, "h_lowpower": True, "ioregs": True}
 
 FIELDS = [("PC", O_PC), ("BA", O_BA), ("I", O_I), ("X", O_X), ("Y", O_Y), ("U", O_U), ("S", O_S), ("F", O_F),
           ("power", O_PWR), ("IMR", O_IMR), ("ISR", O_ISR), ("cycles", O_CYC), ("instructions", O_INS),
